@@ -327,7 +327,7 @@ func (a *APIServer) react(action ktesting.Action) (bool, runtime.Object, error) 
 			simrt.Count("fault:list-failed")
 			simrt.Logf("api FAULT list %s fails", gvr.Resource)
 			if a.Obs != nil {
-				a.Obs.pendingL1 = nil
+				delete(a.Obs.pendingL1, simrt.GoID()) // this goroutine's pending initial list failed
 			}
 			return true, nil, apierrors.NewInternalError(fmt.Errorf("injected list failure"))
 		}
